@@ -312,6 +312,8 @@ def run(rep, facts, tier):
         counts[name] = prov(rep, cfg, f)
         valid_decode(rep, cfg)
         from . import groupops
+        groupops.config_hooks(rep, cfg, "C06")
+        from . import groupops
         groupops.check_select(rep, cfg)     # PROV admits the selection site as "coordinates of existing elements": they must be matching ones
         entry_values(rep, cfg)
         samplers(rep, cfg)
